@@ -569,6 +569,39 @@ func ruleR026(c *Ctx) {
 			continue
 		}
 		ast.Inspect(od.Body, func(n ast.Node) bool {
+			// switch node := ast.(type) { case *parser2.FunctionCall: ... }
+			if ts, ok := n.(*ast.TypeSwitchStmt); ok {
+				var subj ast.Expr
+				switch a := ts.Assign.(type) {
+				case *ast.AssignStmt:
+					if len(a.Rhs) == 1 {
+						if ta, ok := ast.Unparen(a.Rhs[0]).(*ast.TypeAssertExpr); ok {
+							subj = ta.X
+						}
+					}
+				case *ast.ExprStmt:
+					if ta, ok := ast.Unparen(a.X).(*ast.TypeAssertExpr); ok {
+						subj = ta.X
+					}
+				}
+				if id, ok := ast.Unparen(subj).(*ast.Ident); ok && isNamed(info.TypeOf(id), modPath, "AST") && info.ObjectOf(id) != nil && info.ObjectOf(id).Pos() <= od.Body.Pos() {
+					for _, cl := range ts.Body.List {
+						cc := cl.(*ast.CaseClause)
+						if len(cc.List) != 1 {
+							continue
+						}
+						if k := nodeKind(cc.List[0]); k != "" {
+							if opt[k] == nil {
+								opt[k] = map[string]bool{}
+							}
+							for _, st := range cc.Body {
+								consulted(st, 0, opt[k])
+							}
+						}
+					}
+				}
+				return true
+			}
 			ifs, ok := n.(*ast.IfStmt)
 			if !ok {
 				return true
